@@ -444,6 +444,18 @@ template<typename T, typename F> void dispatch_const(const Held<T>& h, F&& f) {
   else if (h.cs) f(static_cast<const typename T::CompactSketch&>(*h.cs)); else f(static_cast<const typename T::BaseCompact&>(*h.bc));
 }
 
+// an operand handed over as an lvalue must come back unchanged
+template<typename T>
+void check_operand_intact(const Held<T>& h, const Input<T>& in, const std::string& key, const std::string& ctx) {
+  if (h.rvalue()) return;
+  dispatch_const<T>(h, [&](const auto& sk) {
+    Obs<typename T::M> o = read_sketch<T>(sk, key, ctx);
+    Exp<typename T::M> x; x.theta = in.theta; x.empty = in.empty; x.e = in.e;
+    compare<T>(o, x, key, ctx);
+  });
+  count("lvalue_operands_rechecked");
+}
+
 template<typename T> struct Fam {
   using M = typename T::M;
   using Cfg = typename T::Cfg;
@@ -629,6 +641,7 @@ template<typename T> struct Fam {
               Held<T> hd = make_form<T>(in, form, ord, seed, cfg);
               dispatch<T>(hd, [&](auto&& sk) { u.update(std::forward<decltype(sk)>(sk)); });
               if (hd.rvalue()) count("rvalue_operand_union");
+              else if (r.chance(0.25)) check_operand_intact<T>(hd, in, N + "|union-lvalue-operand", "after union.update of input#" + std::to_string(perm[j]) + " as " + form_name(form));
             }
             if (in.is_theta) count("theta_operand_union");
             pres.push_back(&in);
@@ -685,6 +698,7 @@ template<typename T> struct Fam {
             Held<T> hd = make_form<T>(in, form, ord, seed, cfg);
             dispatch<T>(hd, [&](auto&& sk) { x_.update(std::forward<decltype(sk)>(sk)); });
             if (hd.rvalue()) count("rvalue_operand_intersection");
+            else if (r.chance(0.25)) check_operand_intact<T>(hd, in, N + "|intersection-lvalue-operand", "after intersection.update of input#" + std::to_string(perm[j]) + " as " + form_name(form));
           }
           if (in.is_theta) count("theta_operand_intersection");
           im.update(in);
@@ -734,6 +748,8 @@ template<typename T> struct Fam {
             dispatch_const<T>(hb, [&](const auto& sb) { T::anotb_compute(anb, std::forward<decltype(sa)>(sa), sb, ro, res); });
           });
           if (ha.rvalue()) count("rvalue_operand_a_not_b");
+          else if (r.chance(0.25)) check_operand_intact<T>(ha, A, N + "|a_not_b-lvalue-operand-A", ctx);
+          if (r.chance(0.25)) check_operand_intact<T>(hb, B, N + "|a_not_b-operand-B", ctx);
         }   // operands (including moved-from ones) are destroyed before the result is read
         if (res) {
           Obs<M> o = read_sketch<T>(*res, N + "|a_not_b", ctx);
@@ -749,6 +765,14 @@ template<typename T> struct Fam {
         if (B.is_theta) count("theta_operand_a_not_b_B");
       }
       count("a_not_b_families");
+    }
+    // the inputs themselves (copied, compacted, serialized, moved-from copies ...) are still what they were
+    for (size_t i = 0; i < n; ++i) {
+      if (ins[i].is_theta) continue;
+      const std::string ctx = "input#" + std::to_string(i) + " re-read after all set operations";
+      Obs<M> o = read_sketch<T>(*ins[i].us, N + "|input-after-operations", ctx);
+      Exp<M> x; x.theta = ins[i].theta; x.empty = ins[i].empty; x.e = ins[i].e;
+      compare<T>(o, x, N + "|input-after-operations", ctx);
     }
     if (want_sample()) sample("{\"family\":" + jstr(G().cur_desc) + "}");
     (void)idx;
